@@ -1040,6 +1040,32 @@ func genC29(r *simrt.Rand, tier string) any {
 		}
 		sc.Clients = append(sc.Clients, ops)
 	}
+	if sc.Cached && r.Pct(50) {
+		// hot object: client 0 keeps changing its name 0 while the others keep looking at it, so that cache
+		// fills by one request race with invalidations by another
+		sc.Pre[0] = true
+		for i := range sc.Clients[0] {
+			op := &sc.Clients[0][i]
+			op.Dir, op.Name = 0, 0
+			switch r.Int(5) {
+			case 0, 1:
+				op.Op, op.Off, op.Len, op.Seed = "write", r.Int(30), r.Int(40), r.Uint64()
+			case 2:
+				op.Op, op.Mode, op.Size = "setattr", []uint32{0o600, 0o640}[r.Int(2)], []int{-1, 3, 50}[r.Int(3)]
+			case 3:
+				op.Op = "remove"
+			case 4:
+				op.Op = "create"
+			}
+		}
+		for ci := 1; ci < len(sc.Clients); ci++ {
+			for i := range sc.Clients[ci] {
+				if r.Pct(70) {
+					sc.Clients[ci][i] = C29Op{Op: "peek", Dir: 0, Name: 0, Peer: 0, Size: -1}
+				}
+			}
+		}
+	}
 	if r.Pct(40) {
 		for k := 0; k < 1+r.Int(2); k++ {
 			sc.Stalls = append(sc.Stalls, simfs.Fault{Op: []string{"Lstat", "Stat", "ReadDir", "OpenFile", "Rename", "Remove", ""}[r.Int(7)], Nth: 1 + r.Int(10), Kind: "stall",
